@@ -99,6 +99,22 @@ fn check_input(ctx: &mut Ctx, a01: &mut PropAcc, a02: &mut PropAcc, bytes: &[u8]
     // ---- entry point 1: validate
     let sh = ctx.s;
     let r_val = catch(|| sh.validate(slot.bytes()));
+    // ---- differential over-read monitor: the verdict must not depend on the bytes behind the slice
+    if ctx.want01 || ctx.want02 {
+        if slot.set_after(0x00) > 0 {
+            let again = catch(|| sh.validate(slot.bytes()));
+            slot.set_after(harness::guard::CANARY);
+            let same = match (&r_val, &again) {
+                (Ok(a), Ok(b)) => a == b,
+                (Err(_), Err(_)) => true,
+                _ => false,
+            };
+            if !same {
+                let acc = if ctx.want01 { &mut *a01 } else { &mut *a02 };
+                acc.violate(format!("decode/depends_on_bytes_outside/{}", fam), format!("{} off={} bytes={} ({}): validate gives {:?} with EE behind the slice and {:?} with 00 behind it: it reads outside the slice", id, off, hex(bytes), origin, r_val, again), replay());
+            }
+        }
+    }
     // ---- entry point 2: from_bytes + observation through safe accessors
     let r_fb = catch(|| {
         sh.from_bytes(slot.bytes()).map(|x| {
